@@ -31,17 +31,18 @@ from harness.common import Failure, lean_run
 
 PROP_MODULES = ["ArmiVerif.Props.C09"]
 PARTIAL = ("double->single rounding of rwFloat and the text<->double conversion of ASCII reals are parameters (bit "
-           "patterns are opaque in the model; the ASCII real *writer* is modelled exactly and compared byte for byte, the "
-           "ASCII real reader is not modelled: file_roundtrip_ascii_partial covers integer/text fields and framing); "
-           "rewrite_identical is proved per record body (whole-file rewrite is checked by the oracle on every file); "
-           "which records a format's readWrite() emits is not modelled per format - the hypothesis 'readWrite is an RW "
-           "program' is what the reader-trace == writer-trace check establishes on every container; DLAYXS's reader-"
-           "side use of the record count (label length, trailing filler) is outside the RW form and checked by the tie "
-           "only; container generators build only what each format's reader accepts (ISOTXS/GAMISO sub-blocking 1, "
-           "Legendre blocks of order <= 1, PMATRX without activation records, LABELS without control-rod/burn-up "
-           "records, RTFLUX NDIM >= 2, GEODST IGOM not in 1..3) - the excluded points are run separately and listed as "
-           "findings")
+           "patterns are opaque in the model; the ASCII real *writer* is modelled exactly and compared byte for byte; the "
+           "ASCII real reader enters file_roundtrip_ascii only through the hypothesis float(format(x,'+.16E')) == x, "
+           "which every run discharges by measurement on the host Python); which records a format's readWrite() emits "
+           "is not modelled per format - the hypothesis 'readWrite is an RW program' is what the reader-trace == "
+           "writer-trace check establishes on every container; DLAYXS's reader-side use of the record count (label "
+           "length, trailing filler) is outside the RW form and checked by the tie only; generators stay inside what "
+           "the readers accept: ISOTXS/GAMISO sub-blocking 1 (NSBLOK = 2 is finding isotxs-scatter-subblocking), "
+           "Legendre blocks of order <= 1, LABELS without control-rod/burn-up records and RTFLUX NDIM >= 2 (both "
+           "NotImplemented in armi)")
 ASSUMPTIONS = [
+    "FloatParseSpec (hypothesis of file_roundtrip_ascii_partial): float(' {:+.16E}'.format(x)) == x for every finite "
+    "double; discharged by measurement on every run (coverage.ascii_real_hypothesis)",
     "IEEE bit patterns: struct.pack('f'/'d') and float()/format(.16E) of the host Python are parameters of the model",
     "little-endian host (struct native byte order), as on every platform armi supports",
     "text-mode file objects deliver the characters written (newline translation is the identity on this host)",
@@ -748,7 +749,8 @@ def gen_geodst(rng, asc, idx):
     d = geodst.GeodstData()
     md = d.metadata
     md["label"] = rand_text(rng, 28)
-    igom = [0, 6, 7, 9, 10, 11, 12, 14, 17, 18, 8, 13, 15, 16][idx % 14] if idx < 14 else rng.choice([0, 6, 10, 14, 18])
+    cyc = [0, 6, 1, 10, 12, 2, 18, 3, 7, 9, 11, 14, 17, 8, 13, 15, 16]
+    igom = cyc[idx % len(cyc)] if idx < len(cyc) else rng.choice([0, 1, 2, 3, 6, 10, 14, 18])
     nrass = [0, 1, 2][(idx // 2) % 3]
     nci, ncj, nck = rng.randint(1, 4), rng.randint(1, 3), rng.randint(1, 3)
     ni, nj, nk = nci + rng.randint(0, 2), ncj + rng.randint(0, 2), nck + rng.randint(0, 2)
@@ -759,6 +761,8 @@ def gen_geodst(rng, asc, idx):
     md["NINTI"], md["NINTJ"], md["NINTK"] = ni, nj, nk
     md["NZONE"], md["NREG"] = rng.randint(0, 4), rng.randint(0, 5)
     md["NBS"], md["NBCS"], md["NIBCS"], md["NZWBB"] = rng.randint(0, 3), rng.randint(0, 3), rng.randint(0, 2), rng.randint(0, 2)
+    if 1 <= igom <= 3:
+        d.xmesh, d.iintervals = garr(rng, nci + 1), giarr(rng, nci, 1, 9)
     if 6 <= igom <= 11 or igom >= 12:
         d.xmesh, d.ymesh = garr(rng, nci + 1), garr(rng, ncj + 1)
         d.iintervals, d.jintervals = giarr(rng, nci, 1, 9), giarr(rng, ncj, 1, 9)
@@ -1139,6 +1143,14 @@ def gen_pmatrx(rng, asc, idx):
             nmd["maxScatteringOrder"] = 1
             nuc.linearAnisotropicProduction = None
             nuc.nOrderProductionMatrix = {}
+        # activation cross-section records (numberNeutronXS > 0)
+        nact = rng.choice([0, 0, 1, 2, 3])
+        if nact:
+            ngn = md["numNeutronGroups"]
+            nmd["numberNeutronXS"] = nact
+            nmd["activationXS"] = [garr(rng, ngn) for _ in range(nact)]
+            nmd["activationMT"] = [rng.choice([16, 17, 102, 103, 107]) for _ in range(nact)]
+            nmd["activationMTU"] = [rng.randint(0, 3) for _ in range(nact)]
     return lib
 
 
@@ -1242,11 +1254,11 @@ def _fixsrc_fmt():
             fixsrc.writeBinary(path, data)
 
     def read(path, asc, like=None):
-        # the public fixsrc.readBinary cannot size its array (finding fixsrc-readbinary-nonempty, tested separately):
-        # the stream class is driven directly with an array of the right shape so that its record logic is exercised
         from armi.nuclearDataIO.cccc import fixsrc
 
-        with fixsrc.FIXSRC(path, "r" if asc else "rb", np.zeros(like.shape)) as fs:
+        if not asc:
+            return fixsrc.readBinary(path)  # the public reader (sizes its array from the 1D record)
+        with fixsrc.FIXSRC(path, "r", np.zeros((0, 0, 0, 0))) as fs:  # no public ASCII entry point: same stream class
             fs.readWrite()
         return fs.fixSrc
 
@@ -1329,8 +1341,6 @@ def roundtrip_case(ctx, fmt, data, asc, workdir, tag, case, jobs, origin="genera
                          "the matrix (one index-pointer entry per row)", case, observed=_SPARSE_VIOLATIONS[0])
                 jobs.append((fmt, asc, case, trw, b1))
                 return None
-            if asc and not cause:
-                cause = filler_cause(fmt, trw, trr)
             if cause:
                 ctx.fail(f"ascii-{fmt.name.lower()}-{origin}-{cause}", "the ASCII form of a file reads back", case,
                          observed=repr(e)[:200].replace("\\n", " "))
@@ -1365,21 +1375,6 @@ def roundtrip_case(ctx, fmt, data, asc, workdir, tag, case, jobs, origin="genera
                  "writing what was read reproduces the file byte for byte", case, observed=_first_byte_diff(b2, b1))
     jobs.append((fmt, asc, case, trw, b1))
     return data2
-
-
-def filler_cause(fmt, trw, trr):
-    """DLAYXS: the reader sizes the trailing filler of the 2nd data record from `numBytes - byteCount`, a count the
-    ASCII reader never maintains. Recognised by where the reader's trace leaves the writer's: inside that record,
-    after every field the writer put there, with the reader asking for 4-character strings."""
-    if fmt.name != "DLAYXS":
-        return None
-    w, r = norm_events(trw.ev), norm_events(trr.ev)
-    d = next((i for i, (a, b) in enumerate(zip(w, r)) if a != b), min(len(w), len(r)))
-    closes = [i for i, e in enumerate(w) if e[0] == "close"]
-    if len(closes) >= 3 and closes[1] < d <= closes[2] and d < len(r) and r[d][0] == "s" and r[d][1] == 4 \
-            and all(e[0] == "s" and e[1] == 4 for e in w[d:closes[2]]):
-        return "filler-count"
-    return None
 
 
 def norm_events(ev):
@@ -1751,6 +1746,77 @@ def guarded_sparse():
         isotxs.sparse, compxs.csc_matrix = old
 
 
+# --------------------------------------------------------------------------- the ASCII-real hypothesis, measured
+def run_float_hypothesis(ctx):
+    """`file_roundtrip_ascii_partial` assumes FloatParseSpec: float(" {:+.16E}".format(x)) == x (same bit pattern) for
+    every finite double. Discharged here by measurement on the host's real format/float pair: random bit patterns,
+    subnormals, extremes, neighbours of powers of ten and of two, and every value goes through the Lean formatter too
+    (Cccc.asciiRealField vs Python's format, 3-digit exponents and subnormals included). In-field values (2-digit
+    exponent) additionally go through the real AsciiRecordWriter/Reader pair."""
+    import math
+
+    from armi.nuclearDataIO.cccc import cccc
+
+    N = ctx.pick(4000, 60000)
+    pats = [0, 1 << 63, 1, 2, (1 << 52) - 1, 1 << 52, (1 << 52) + 1, 0x7FEFFFFFFFFFFFFF, 0xFFEFFFFFFFFFFFFF,
+            0x7FE0000000000000, dbits(1e22), dbits(1e23), dbits(9.999999999999999e22), dbits(5e-324), dbits(2.2250738585072014e-308),
+            dbits(2.225073858507201e-308), dbits(0.1), dbits(1 / 3), dbits(1e100), dbits(1e-100), dbits(9.999999999999998e99)]
+    for k in range(-323, 309, 7):
+        x = float(f"1e{k}")
+        pats += [dbits(x), dbits(math.nextafter(x, 0.0)), dbits(math.nextafter(x, math.inf))]
+    for e in range(-1074, 1024, 41):
+        x = math.ldexp(1.0, e)
+        pats += [dbits(x), dbits(math.nextafter(x, 0.0)), dbits(-math.nextafter(x, math.inf))]
+    while len(pats) < N:
+        c = ctx.rng.random()
+        if c < 0.6:
+            n = ctx.rng.getrandbits(64)
+        elif c < 0.8:
+            n = ctx.rng.getrandbits(52) | (ctx.rng.getrandbits(1) << 63)  # subnormals
+        else:
+            n = dbits(rand_double(ctx.rng))
+        if (n >> 52) & 0x7FF != 0x7FF:
+            pats.append(n)
+    bad, infield, sub, threedig = 0, 0, 0, 0
+    req, impl, cases = [], [], []
+    for n in pats:
+        x = frombits64(n)
+        text = " {:+.16E}".format(x)
+        back = float(text)
+        if dbits(back) != n:
+            bad += 1
+            ctx.fail("ascii-real-format-parse-roundtrip", "float(format(x, '+.16E')) == x for every finite double",
+                     {"bits": n, "x": repr(x)}, observed=[text, repr(back)])
+        sub += (n >> 52) & 0x7FF == 0 and n & ((1 << 52) - 1) != 0
+        threedig += len(text) != 24
+        req.append(f"afloat {n}"); impl.append(text.encode().hex()); cases.append(("afloat", n, text))
+        if len(text) == 24 and infield < 600:
+            infield += 1
+            buf = io.StringIO()
+            w = cccc.AsciiRecordWriter(buf)
+            with w:
+                w.rwDouble(x)
+                w.rwFloat(x)
+            r = cccc.AsciiRecordReader(io.StringIO(buf.getvalue()))
+            with r:
+                got = [r.rwDouble(None), r.rwFloat(None)]
+            if [dbits(g) for g in got] != [n, n]:
+                ctx.fail("ascii-float-roundtrip", "doubles with 2-digit exponents read back exactly from the ASCII format",
+                         {"bits": n, "x": repr(x)}, observed=[repr(g) for g in got])
+        ctx.case(("afloat", n), nontrivial=True)
+    model = lean_run("Cccc", req)
+    ctx.compare("Cccc.asciiRealField vs Python format(x, '+.16E')", cases, model, impl)
+    ctx.evaluations += len(req)
+    ctx.extra["ascii_real_hypothesis"] = {
+        "statement": "FloatParseSpec: float(' {:+.16E}'.format(x)) == x (identical bit pattern) for every finite double x",
+        "used_by": "file_roundtrip_ascii_partial / asciiReal_roundtrip",
+        "doubles_checked": len(pats), "subnormals": int(sub), "three_digit_exponents": int(threedig),
+        "through_real_AsciiRecordWriter_Reader": infield, "failures": bad,
+        "lean_formatter_compared": len(req),
+    }
+    ctx.count("ASCII real hypothesis: doubles through format/float", len(pats))
+
+
 @contextlib.contextmanager
 def quiet_armi():
     """armi logs the exceptions the excluded-point streams provoke on purpose; keep them off the terminal."""
@@ -1771,6 +1837,7 @@ def run(ctx):
         run_helpers(ctx)
         run_record_sequences(ctx)
         run_excluded_points(ctx)
+        run_float_hypothesis(ctx)
         run_fixtures(ctx, workdir)
         run_formats(ctx, workdir)
         run_band(ctx, workdir)
